@@ -1,18 +1,19 @@
 ------------------------- MODULE IndexedStoreTraceMC -------------------------
 EXTENDS IndexedStoreTrace
-MCIds5 == <<".", "..", "a", "ab", "b">>
+MCIds6 == <<"", ".", "..", "a", "ab", "b">>
 MCVals == <<"x", "y">>
-MCSegs == <<".", "..", "a", "ab", "b", "data", "id", "indexes", "p", "x", "y">>
+MCSegs == <<"", ".", "..", "..x", "..y", ".x", ".y", "a", "ab", "abx", "aby", "ay", "b", "bx", "by",
+            "data", "id", "indexes", "p", "u", "x", "y">>
 MCGlob == [p \in {"a*", "*b", "?", "*", "a", "ab", ".*", "??"} |->
     CASE p = "a*" -> {"a", "ab"}
       [] p = "*b" -> {"ab", "b"}
       [] p = "?"  -> {".", "a", "b"}
-      [] p = "*"  -> {".", "..", "a", "ab", "b"}
+      [] p = "*"  -> {"", ".", "..", "a", "ab", "b"}
       [] p = "a"  -> {"a"}
       [] p = "ab" -> {"ab"}
       [] p = ".*" -> {".", ".."}
       [] p = "??" -> {"..", "ab"}]
 (* grid of the Impl-level invariant ListIsSlice evaluated on every recorded state (drift cfg) *)
-MCGridTiny == [idx : {"id", "a"}, pat : {"", "a*"}, off : {0, 1}, lim : {-1, 1}, rev : {FALSE}]
+MCGridTiny == [idx : {"id", "a", "u"}, pat : {"a*"}, off : {0, 1}, lim : {-1}, rev : {FALSE}]
                 \cup {[idx |-> "a", pat |-> "?", off |-> 1, lim |-> 2, rev |-> TRUE]}
 =============================================================================
